@@ -43,5 +43,6 @@ package common
 //@   ensures res.RawQuery == r.URL.RawQuery && res.Fragment == ""
 //@   ensures endpoint.PreservePath && endpoint.URL.Path != "" && endpoint.URL.Path != "/" ==> res.Path == pathJoin(endpoint.URL.Path, trimPrefix(ite(stripped(r.URL.Path, proxyPrefix) == "", "/", stripped(r.URL.Path, proxyPrefix)), "/"))
 //@   ensures !(endpoint.PreservePath && endpoint.URL.Path != "" && endpoint.URL.Path != "/") ==> !hasDotSeg(res.Path) || !(endpoint.URL.Path == "" || endpoint.URL.Path == "/")
+//@   ensures !(endpoint.PreservePath && endpoint.URL.Path != "" && endpoint.URL.Path != "/") && (endpoint.URL.Path == "" || endpoint.URL.Path == "/") ==> !encDotSeg(res.Path)
 //@   ensures !(endpoint.PreservePath && endpoint.URL.Path != "" && endpoint.URL.Path != "/") && (endpoint.URL.Path == "" || endpoint.URL.Path == "/") && !hasDotSeg(stripped(r.URL.Path, proxyPrefix)) && !encDotSeg(stripped(r.URL.Path, proxyPrefix)) && stripped(r.URL.Path, proxyPrefix) != "" ==> res.Path == stripped(r.URL.Path, proxyPrefix)
 //@   uses clean_nodots slash_nodots
